@@ -777,6 +777,26 @@ static void run_op(char **t, int nt)
 	if (!strcmp(op, "opt_print")) { NEED(2); LOCOPT(1); print_to_mem(op, NULL, loc_opt, 0, 2); return; }
 	if (!strcmp(op, "opt_print_indent")) { NEED(3); LOCOPT(1); print_to_mem(op, NULL, loc_opt, atoi(t[2]), 3); return; }
 
+	/* ---- print_parse <srcL> <dstL>: print src into memory, parse that text into dst */
+	if (!strcmp(op, "print_parse")) {
+		char *buf = NULL; size_t sz = 0; FILE *fp; cfg_t *src; int prc, rc;
+		NEED(3); LOC(1);
+		src = loc_cfg;
+		LOC(2);
+		fp = open_memstream(&buf, &sz);
+		if (!fp) die("open_memstream");
+		prc = cfg_print(src, fp);
+		fclose(fp);
+		fprintf(LOG, "{\"ev\":\"printed\",\"rc\":%d,\"out\":", prc);
+		jhexn(buf, sz);
+		fputs("}\n", LOG);
+		evflush();
+		if (memchr(buf, 0, sz)) rc = -77;	/* a NUL in the output cannot be parsed back as a buffer */
+		else rc = cfg_parse_buf(loc_cfg, buf);
+		free(buf);
+		logret(op, rc);
+		return;
+	}
 	/* ---- by-name typed setters: set{int,float,bool,str} <L> <name> <val> [<idx>] */
 	if (!strcmp(op, "setint") || !strcmp(op, "setfloat") || !strcmp(op, "setbool") || !strcmp(op, "setstr")) {
 		char *name, *sv = NULL; int rc = -99; long idx = -1;
